@@ -233,6 +233,14 @@ impl<F: Read + Seek> Seek for Stream<F> {
 
 impl<F: Read + Write + Seek> Write for Stream<F> {
     fn write(&mut self, buf: &[u8]) -> io::Result<usize> {
+        // A stream cannot become longer than u64::MAX bytes (a damaged file
+        // can claim a length close to that).
+        let room = u64::MAX - self.current_position();
+        let buf = if (buf.len() as u64) > room {
+            &buf[..room as usize]
+        } else {
+            buf
+        };
         let num_bytes_written = match self.buffer.write_bytes(buf) {
             Some(count) => count,
             None => {
@@ -282,10 +290,10 @@ impl<F: Read + Write + Seek> Flusher<F> for FlushBuffer {
             stream.buf_offset_from_start,
             stream.buffer.filled_slice(),
         )?;
-        debug_assert_eq!(
-            minialloc.read().unwrap().dir_entry(stream.stream_id).stream_len,
-            stream.total_len
-        );
+        // Note that the length recorded in the directory entry need not equal
+        // `stream.total_len` here: the two can differ after an earlier
+        // operation on this handle failed half-way (I/O error, or a damaged
+        // file), so this is deliberately not asserted.
         Ok(())
     }
 }
@@ -339,13 +347,26 @@ fn write_data_to_stream<F: Read + Write + Seek>(
         debug_assert_eq!(dir_entry.obj_type, ObjType::Stream);
         (dir_entry.start_sector, dir_entry.stream_len)
     };
-    debug_assert!(buf_offset_from_start <= old_stream_len);
+    if buf_offset_from_start > old_stream_len {
+        // This can happen after an earlier operation on the handle failed
+        // half-way, or with a damaged file.
+        invalid_data!(
+            "Cannot write at offset {}, stream length is only {} bytes",
+            buf_offset_from_start,
+            old_stream_len
+        );
+    }
     let new_stream_len =
         old_stream_len.max(buf_offset_from_start + buf.len() as u64);
     let new_start_sector = if old_start_sector == consts::END_OF_CHAIN {
         // Case 1: The stream has no existing chain.  The stream is empty, and
         // we are writing at the start.
-        debug_assert_eq!(old_stream_len, 0);
+        if old_stream_len != 0 {
+            invalid_data!(
+                "Stream has no sectors, but its length is {} bytes",
+                old_stream_len
+            );
+        }
         debug_assert_eq!(buf_offset_from_start, 0);
         if new_stream_len < consts::MINI_STREAM_CUTOFF as u64 {
             // Case 1a: The data we're writing is small enough that it
@@ -430,7 +451,12 @@ fn resize_stream<F: Read + Write + Seek>(
     let new_start_sector = if old_start_sector == consts::END_OF_CHAIN {
         // Case 1: The stream has no existing chain.  We will allocate a new
         // chain that is all zeroes.
-        debug_assert_eq!(old_stream_len, 0);
+        if old_stream_len != 0 {
+            invalid_data!(
+                "Stream has no sectors, but its length is {} bytes",
+                old_stream_len
+            );
+        }
         if new_stream_len < consts::MINI_STREAM_CUTOFF as u64 {
             // Case 1a: The new length is small enough that it should be placed
             // into a new mini chain.
